@@ -138,47 +138,69 @@ func checkC03(args []string) {
 	}
 	run.Cov["generated"] = len(lines)
 	run.Cov["rejected_by_the_specification_and_skipped"] = skipped
+	tokLit, tokCopy, tokCache := 0, 0, 0
 	// spec -> code: the TLA+ WRITER (spec/Vp8lGen.tla) enumerates every ordered list of distinct transforms by BFS,
 	// writes the stream and decodes it with the reader spec; the real decoder must return the spec's pixels
-	wr := vx.MustTLC(vx.TLCOpts{Module: "Vp8lGen", Cfg: fmt.Sprintf("SPECIFICATION Spec\nCONSTANTS W = 7\nH = 5\nSEED = %d\nMAXT = %d\nINVARIANTS ReaderAccepts Emit\nCHECK_DEADLOCK FALSE\n", 1+run.Seed%97, run.Pick(2, 4)),
-		Workers: 1, Timeout: 30 * time.Minute, Heap: "4g"})
-	if wr.InvViolated != "" {
-		vx.Fatal2("Vp8lGen: the reader spec rejects what the writer spec wrote (%s): specification bug", wr.InvViolated)
+	replayWriter := func(module, what string, wr *vx.TLCResult) int {
+		if wr.InvViolated != "" {
+			vx.Fatal2("%s: the reader spec rejects what the writer spec wrote (%s): specification bug", module, wr.InvViolated)
+		}
+		run.AddTLC(wr)
+		nWr := 0
+		for _, raw := range wr.Tagged("CASE") {
+			var c struct {
+				Ts    []any `json:"ts"`
+				W     int   `json:"w"`
+				H     int   `json:"h"`
+				NTok  int   `json:"ntok"`
+				Bytes []int `json:"bytes"`
+				Pix   []int `json:"pix"`
+			}
+			if err := json.Unmarshal(raw, &c); err != nil {
+				vx.Fatal2("%s CASE: %v", module, err)
+			}
+			b := make([]byte, len(c.Bytes))
+			for i, v := range c.Bytes {
+				b[i] = byte(v)
+			}
+			name := fmt.Sprintf("TLA+ writer %s, %s %v on %dx%d", module, what, c.Ts, c.W, c.H)
+			pix, w, h, err, hang := decodeToARGB(wrapVP8L(b), 20*time.Second)
+			nWr++
+			run.Eval("writer:" + module + fmt.Sprint(c.Ts, c.W))
+			run.AddTraces(1)
+			if module == "Vp8lGen2" {
+				tokLit += c.NTok % 1000
+				tokCopy += c.NTok / 1000 % 1000
+				tokCache += c.NTok / 1000000
+			}
+			switch {
+			case hang:
+				run.Violate("hang|tla-writer", name+": webp.Decode did not return", map[string]any{"desc": name, "bytes": b})
+				run.Finish()
+			case err != nil:
+				run.Violate("valid-stream-rejected|tla-writer|"+module+fmt.Sprint(c.Ts), name+": "+err.Error(), map[string]any{"desc": name, "bytes": b})
+			case w != c.W || h != c.H || !equalInts(pix, c.Pix):
+				run.Violate("pixels|tla-writer|"+module+fmt.Sprint(c.Ts), name+": decoded pixels differ from the specification's", map[string]any{"desc": name, "bytes": b})
+			}
+		}
+		if nWr == 0 {
+			vx.Fatal2("%s produced no case", module)
+		}
+		return nWr
 	}
-	run.AddTLC(wr)
-	nWr := 0
-	for _, raw := range wr.Tagged("CASE") {
-		var c struct {
-			Ts    [][]int `json:"ts"`
-			W     int     `json:"w"`
-			H     int     `json:"h"`
-			Bytes []int   `json:"bytes"`
-			Pix   []int   `json:"pix"`
-		}
-		if err := json.Unmarshal(raw, &c); err != nil {
-			vx.Fatal2("Vp8lGen CASE: %v", err)
-		}
-		b := make([]byte, len(c.Bytes))
-		for i, v := range c.Bytes {
-			b[i] = byte(v)
-		}
-		name := fmt.Sprintf("TLA+ writer, transforms (type,colours) %v on %dx%d", c.Ts, c.W, c.H)
-		pix, w, h, err, hang := decodeToARGB(wrapVP8L(b), 20*time.Second)
-		nWr++
-		run.Eval("writer:" + fmt.Sprint(c.Ts))
-		run.AddTraces(1)
-		switch {
-		case hang:
-			run.Violate("hang|tla-writer", name+": webp.Decode did not return", map[string]any{"desc": name, "bytes": b})
-			run.Finish()
-		case err != nil:
-			run.Violate("valid-stream-rejected|tla-writer|"+fmt.Sprint(c.Ts), name+": "+err.Error(), map[string]any{"desc": name, "bytes": b})
-		case w != c.W || h != c.H || !equalInts(pix, c.Pix):
-			run.Violate("pixels|tla-writer|"+fmt.Sprint(c.Ts), name+": decoded pixels differ from the specification's", map[string]any{"desc": name, "bytes": b})
-		}
+	nWr := replayWriter("Vp8lGen", "transforms (type,colours)", vx.MustTLC(vx.TLCOpts{Module: "Vp8lGen", Cfg: fmt.Sprintf("SPECIFICATION Spec\nCONSTANTS W = 7\nH = 5\nSEED = %d\nMAXT = %d\nINVARIANTS ReaderAccepts Emit\nCHECK_DEADLOCK FALSE\n", 1+run.Seed%97, run.Pick(2, 4)),
+		Workers: 1, Timeout: 30 * time.Minute, Heap: "4g"}))
+	// the token-level writer: literals / copies / cache references x cache bits x meta prefix image x tile-aligned or not
+	seeds, widths := fmt.Sprintf("{%d}", 1+run.Seed%89), "{5, 8}"
+	if run.Thorough() {
+		seeds, widths = fmt.Sprintf("{%d, %d, %d, %d}", 1+run.Seed%89, 2+run.Seed%89, 3+run.Seed%89, 4+run.Seed%89), "{5, 8, 9, 13}"
 	}
-	if nWr == 0 {
-		vx.Fatal2("Vp8lGen produced no case")
+	nWr2 := replayWriter("Vp8lGen2", "tokens (seed, cache bits, meta, copies)", vx.MustTLC(vx.TLCOpts{Module: "Vp8lGen2", Cfg: fmt.Sprintf("SPECIFICATION Spec\nCONSTANTS SEEDS = %s\nWIDTHS = %s\nH = 6\nINVARIANTS ReaderAccepts Emit\nCHECK_DEADLOCK FALSE\n", seeds, widths),
+		Workers: 4, Timeout: 30 * time.Minute, Heap: "4g"}))
+	run.Cov["streams_from_the_tla_token_writer"] = nWr2
+	run.Cov["tla_token_writer_tokens"] = map[string]int{"literals": tokLit, "copies": tokCopy, "cache_references": tokCache}
+	if tokCopy == 0 || tokCache == 0 {
+		vx.Fatal2("Vp8lGen2: the token plans contain no copy or no cache reference (vacuous)")
 	}
 	run.Cov["streams_from_the_tla_writer"] = nWr
 	// libwebp fixtures: real decoder against the reference PNGs; in the thorough tier the TLA+ reader decodes them too,
